@@ -24,6 +24,7 @@ ANCHORS = ['pycaption.dfxp.base:DFXPWriter.write', 'pycaption.dfxp.base:DFXPWrit
            'pycaption.dfxp.base:RegionCreator.cleanup_regions', 'pycaption.dfxp.base:_OrderedSet.add',
            'pycaption.dfxp.extras:LegacyDFXPWriter.write', 'pycaption.dfxp.extras:LegacyDFXPWriter._recreate_span',
            'pycaption.dfxp.extras:LegacyDFXPWriter._recreate_style']
+THOROUGH_SCALE = 3        # random budgets of the thorough tier are multiplied by this
 REQUIRE = {'writes_DFXPWriter': 100, 'writes_SinglePositioningDFXPWriter': 50, 'writes_LegacyDFXPWriter': 50,
            'outputs_parsed': 300, 'meta_in_attribute_value': 50, 'sets_from_readers': 50,
            'inline_positioning_writes': 20, 'force_writes': 20, 'regions_defined': 100,
